@@ -22,6 +22,7 @@ from vlib.driver import Report, handle_xh, known_findings
 
 HDIR = os.path.dirname(os.path.abspath(__file__))
 H = os.path.join(HDIR, "c06_h.py")
+HR = os.path.join(HDIR, "c06_real_h.py")
 NAMES = ["a.zo", "s/b.zo"]
 V1 = "# t\n\n- 240101#01 one\n"
 V2 = "# t\n\n- 240101#01 two\n"
@@ -125,6 +126,17 @@ def _judge_after(z, mode):
 
 
 def replayer(name, args, kwargs, meta):
+    if name == "history_real":
+        # the condition already ran the unpatched code; run the same history once more in this process and report it
+        spec = importlib.util.spec_from_file_location("c06_real_tbl", HR)
+        mr = importlib.util.module_from_spec(spec)
+        spec.loader.exec_module(mr)
+        a, b, mode, e = mr.ADM[args[0]]
+        why = mr.history(args[0])
+        desc = "pages in states %r / %r (file, index, hash entry); `db reindex%s`; then page a.zo %s; then `db reindex`" % (
+            mr.VALID[a], mr.VALID[b], ["", " a.zo", " s/b.zo"][mode],
+            "untouched" if e < 0 else ("deleted" if not mr.FILE_STATES[e] else "becomes %r" % mr.TEXTS[0][mr.FILE_STATES[e]]))
+        return bool(why), {"summary": desc + ": " + (why or "index == fresh index"), "why": why}
     from freezegun import freeze_time
     valid = _valid()
     with zreal.TempZdir("c06r") as z, freeze_time(FREEZE):
@@ -193,7 +205,9 @@ def main():
         bounds=["2 pages (one in a sub-directory); per page: file in {absent, v1, v2, page with a ZID-less note}, index in "
                 "{absent, v1, v2, that page with its ZID}, hash entry in {absent, hash of any of the 4 texts}: %d per-page "
                 "states satisfy the invariants, all %d pairs x 3 run modes explored" % (len(valid), len(valid) ** 2)],
-        outside=["the SQL-level content of a page entry; more than 2 pages; concurrent edits during a run",
+        outside=["model family: the SQL-level content of a page entry (covered by the real-history family for the histories it "
+                 "runs: state pair -> reindex in any mode -> edit of page a -> plain reindex, compared with a fresh db create); "
+                 "more than 2 pages; concurrent edits during a run",
                  "whitelisted broken pages (C08)"])
     kf_active, _ = known_findings("C06")
     kf_ids = {e["id"] for e in kf_active}
@@ -211,6 +225,18 @@ def main():
                          cc={"ranges": [[1, 4], [1, 4], [0, 4], [0, 4], [1, 3]], "max": 300}))
     if "KF-C06-1" in kf_ids:
         conds.append(xh.Cond(H, "kf_deleted_page", timeout=T, env=env0, meta={"family": "known", "known_finding": "KF-C06-1"}))
+    # family history_real: short histories over the unpatched zorg (real SQLite / SQLRepo / compiler) in a temp directory
+    n_hist = xh.eval_in_harness(HR, "len(ADM)")
+    stride = 16 if tier == "quick" else 1
+    hstep = (n_hist + 15) // 16
+    for lo in range(0, n_hist, hstep):
+        hi = min(n_hist, lo + hstep)
+        conds.append(xh.Cond(HR, "history_real", timeout=900 if tier == "quick" else 2400, path_timeout=120, cc=False,
+                             env={"XH_N": "%d-%d" % (lo, hi), "XH_STRIDE": stride, "XH_OFFSET": seed},
+                             meta={"variant": "n[%d:%d]" % (lo, hi), "family": "history_real",
+                                   "bound": "real histories %d..%d of %d%s" % (lo, hi - 1, n_hist, "" if stride == 1 else
+                                                                               ", every %dth (rotated by the seed)" % stride)}))
+    conds.append(xh.Cond(HR, "history_real", timeout=120, twin=True, env={"XH_N": "0-4"}, meta={"variant": "n[0:4]", "family": "twin"}))
     conds.append(xh.Cond(H, "step", timeout=30, twin=True, env=dict(env0, XH_S0="8-12"), meta={"variant": "s0[8,12)", "family": "twin"}))
     results = xh.run_all(conds)
     handle_xh(rep, results, replayer)
